@@ -27,7 +27,7 @@ def random_items(seed, n):
     rng = random.Random(seed)
     frags = ["http://", "https://", "ftp://", "javascript:", "mailto:", "www.", "HTTP://", "example.com", "a.com", "/", "/path/to",
              "?q=1&r=2", "&", "&amp;", "&quot;", "&lt;", '"', "'", "<", ">", "(", ")", ".", ",", " ", " ", "\n", "x" * 9, "y" * 17,
-             "é", "日本", "#frag", "%20", ":", "@", "!", "-", "_", "~", "="]
+             "é", "日本", "#frag", "%20", ":", "@", "!", "-", "_", "~", "=", ";", ";v=2", ";jsessionid=1"]
     items = []
     for _ in range(n):
         cfg = {"kind": "free", "shorten": rng.random() < 0.6, "rp": rng.random() < 0.3, "perm": rng.choice([1, 1, 2, 3]),
@@ -38,17 +38,16 @@ def random_items(seed, n):
 
 
 def run(ctx):
-    ctx.mc("text", MODULE, "MC_Linkify.cfg", overrides={"MaxFree": ctx.pick(1, 2)}, required_actions=["Extend"])
+    ctx.mc("text", MODULE, "MC_Linkify.cfg", timeout=ctx.pick(900, 1500), overrides={"MaxFree": ctx.pick(1, 2)}, required_actions=["Extend"])
     ov = ctx.pick({"Level": 1, "MaxFree": 2, "Perms": "{1}", "Extras": "{0}"},
                   {"Level": 2, "MaxFree": 3, "Perms": "{1, 3}", "Extras": "{0, 2}"})
-    states = ctx.gen_states("text", MODULE, "Gen_Linkify.cfg", overrides=ov)
+    states = ctx.gen_states("text", MODULE, "Gen_Linkify.cfg", timeout=ctx.pick(900, 1500), overrides=ov)
     paths, rel_items = td.paths_from_states(states)
     rel_traces = td.record(MODULE, rel_items)
-    td.validate_calls(ctx, MODULE, "Trace_Linkify", "Trace_Linkify.cfg", rel_traces, label="s2c-rel")
     ctx.cov["exhaustive"] = True
     items = random_items(ctx.seed * 7919 + 22, ctx.pick(800, 20000))
     traces = td.record(MODULE, items)
-    td.validate_calls(ctx, MODULE, "Trace_Linkify", "Trace_Linkify.cfg", traces)
+    td.validate_both(ctx, MODULE, "Trace_Linkify", "Trace_Linkify.cfg", rel_traces, traces)
     ctx.cov["rule"] = ("texts: prefix x 7 protocols x 5 hosts/fillers (lengths 17-34) x 9 middles x 5-8 tails, and every text of <= "
                        "%d free tokens, under shorten x require_protocol (quick) x 2 permitted-protocol sets x 2 extra_params forms "
                        "(thorough); plus seeded random texts of <= 14 fragments; every output judged by TLC" % ov["MaxFree"])
